@@ -96,6 +96,16 @@ CHECKS = {
               "arena settings and ASLR on/off; stream bytes and reconstructions must be identical."),
         note=TB_COMMON + "Only the parameter-block serializer is covered by the all-written theorem; the remaining serializers by run-to-run comparison (exploration). zlib/zstd determinism trusted.",
         technique="Coq proof (all positions written) + multi-process differential under heap/ASLR perturbation"),
+    "C03": dict(
+        category="proof", design_ref="DESIGN.md §4 C03",
+        text=("The integer kernels (1-D previous value, 2-D/3-D Lorenzo stencils, 4-D as independent 3-D blocks) are an instance of the generic "
+              "prediction/quantisation codec; proved without axioms: the decoder reproduces the encoder's reconstruction for every array and "
+              "context (lock-step), emitted codes are never 0, and every element is within an integral bound e (|d - 2e*floor((d+e)/2e)| <= e), "
+              "unpredictable ones exact; the two ways the unguarded statement fails (non-integral bounds, values leaving their C type) are refuted "
+              "statements with witnesses and listed finding classes. On every run the model's reconstruction is compared bit for bit with the "
+              "implementation on runs without narrowing events (all eight types, ranks 1..4), and the bound oracle runs on all cases."),
+        note=TB_COMMON + "binary64 evaluation of the state formula assumed exact below 2^52 (tied by comparison); per-file C types of intermediates are a table in the model; finding classes int_fractional_bound / int_narrowing are decided by e and by the model's event flag (or a sufficient safe-zone predicate).",
+        technique="Coq proof (generic codec induction + integer division lemma) + bit-exact model/implementation comparison + bound oracle"),
 }
 
 NOT_YET = {}
